@@ -11,6 +11,7 @@ import (
 	"time"
 
 	storetypes "cosmossdk.io/store/types"
+	tmbytes "github.com/cometbft/cometbft/libs/bytes"
 	sdk "github.com/cosmos/cosmos-sdk/types"
 
 	"verif/harness/chain"
@@ -101,16 +102,34 @@ func newOraEnv(fl *drv.Flags) *oraEnv {
 	for _, p := range e.provs {
 		accts[p] = fmt.Sprintf("%d%s", 40, svcslice.Denom)
 	}
-	e.c = chain.New(chain.Options{
+	clock := fl.CfgInt("clock", 0) == 1
+	if clock {
+		accts[e.users[0]] += ",100btc" // a price denom must have supply
+	}
+	opts := chain.Options{
 		Accounts: accts,
 		MutateGenesis: func(c *chain.Chain, gs simapp.GenesisState) {
-			svcslice.MutateGenesis(c, gs, svcslice.Options{MaxTimeout: e.maxTO, TaxNum: e.taxNum, TaxDen: e.taxDen,
+			so := svcslice.Options{MaxTimeout: e.maxTO, TaxNum: e.taxNum, TaxDen: e.taxDen,
 				Definitions: []servicetypes.ServiceDefinition{{
 					Name: svcName, Description: "price feed", Author: c.Accts[e.provs[0]].Addr.String(),
 					AuthorDescription: "verif", Schemas: `{"input":{"type":"object"},"output":{"type":"object"}}`,
-				}}})
+				}}}
+			if clock {
+				// the oracle's own module service (exchange rates), as the e2e suites set it up
+				so.Definitions = append(so.Definitions, servicetypes.GenOraclePriceSvcDefinition())
+				so.Bindings = append(so.Bindings, servicetypes.GenOraclePriceSvcBinding(svcslice.Denom))
+			}
+			svcslice.MutateGenesis(c, gs, so)
 		},
-	})
+	}
+	step := 5 * time.Second
+	if clock {
+		// the first value of the run is a few seconds short of five minutes old
+		// by the host clock while the run lasts (DESIGN F7, property C11)
+		opts.GenesisTime = time.Now().Add(-5*time.Minute + 12*time.Second).UTC().Truncate(time.Second)
+		step = time.Second
+	}
+	e.c = chain.New(opts)
 	c := e.c
 	e.svc = svcslice.NewEnv(c, svcName, e.provs)
 	e.svc.RenderOutput = func(output string) (string, int64) {
@@ -131,7 +150,7 @@ func newOraEnv(fl *drv.Flags) *oraEnv {
 	for i, p := range e.provs {
 		txs = append(txs, chain.Tx{Signer: p, Msgs: []sdk.Msg{svcslice.BindMsg(c, svcName, p, e.price+int64(i)*2, 20, 1)}})
 	}
-	r := c.RunBlock(5*time.Second, txs)
+	r := c.RunBlock(step, txs)
 	for i, t := range r.Txs {
 		if !t.OK {
 			panic(fmt.Sprintf("oracle setup tx %d failed: %s", i, t.Log))
@@ -480,6 +499,8 @@ func oracleDriver(mode string, fl *drv.Flags) error {
 		for i := 0; i < fl.N; i++ {
 			oraRandom(fl, rng, w)
 		}
+	case "clock":
+		return oraClock(fl, w)
 	default:
 		return fmt.Errorf("unknown mode %q", mode)
 	}
@@ -620,4 +641,89 @@ func oraRandom(fl *drv.Flags, rng *rand.Rand, w *chain.TraceWriter) {
 		}
 	}
 	e.epilogue(w)
+}
+
+// oraClock (property C11, finding F7): a short live run in which outcomes of the
+// oracle's exchange-rate module service straddle the five-minute limit that the
+// code measures against the HOST clock (keeper.go ModuleServiceRequest:
+// time.Since(valueTime)).  The chain starts 5 min - 12 s in the past; a feed
+// "btc-stake" gets its first value within the first blocks; while that value is
+// still younger than five minutes by the host clock, a consumer calls the
+// "oracle-price" service and providers bind a service priced in btc (the
+// exchange-rate path of GetMinDeposit).  Nothing here is validated by TLC; the
+// run is recorded (VERIF_RECORD_DIR) and replayed later on replicas.
+func oraClock(fl *drv.Flags, w *chain.TraceWriter) error {
+	fl.Cfg["clock"] = "1"
+	fl.Cfg["users"] = "2"
+	fl.Cfg["provs"] = "3"
+	fl.Cfg["maxtimeout"] = "2"
+	e := newOraEnv(fl)
+	e.start(w)
+	c := e.c
+	const feed = "btc-stake"
+	block := func(evs ...chain.M) []chain.TxResult {
+		var txs []chain.Tx
+		for _, ev := range evs {
+			msg, _ := ev["msg"].(sdk.Msg)
+			delete(ev, "msg")
+			if msg == nil {
+				msg = e.msgOf(ev)
+			}
+			txs = append(txs, chain.Tx{Signer: chain.Str(ev, "who"), Msgs: []sdk.Msg{msg}})
+		}
+		res := c.RunBlock(time.Second, txs)
+		if res.Halt {
+			panic("clock run halted: " + res.HaltMsg)
+		}
+		w.Write(oraEvent("BeginBlock", "", ""), res.BeginState)
+		for i, ev := range evs {
+			ev["ok"], ev["panic"] = res.Txs[i].OK, res.Txs[i].Panic
+			w.Write(ev, res.Txs[i].State)
+			e.last = res.Txs[i].State.(chain.M)
+		}
+		w.Write(oraEvent("EndBlock", "", ""), res.EndState)
+		e.last = res.EndState.(chain.M)
+		return res.Txs
+	}
+	create := oraEvent("CreateFeed", "u1", feed)
+	create["agg"], create["lh"], create["provs"], create["thr"] = "avg", int64(2), []any{"p1"}, int64(1)
+	create["cap"], create["timeout"], create["freq"] = int64(12), int64(1), int64(2)
+	block(create, oraEvent("StartFeed", "u1", feed))
+	answer := oraEvent("Respond", "p1", feed)
+	answer["kind"], answer["x"] = "val", int64(200_000_000) // 2.00000000 stake per btc
+	block(answer)
+	if vs := e.last["values"].(chain.M)[feed].([]any); len(vs) == 0 {
+		return fmt.Errorf("clock: no value stored for %s", feed)
+	}
+	call := func(who string) chain.M {
+		ev := oraEvent("CallService", who, feed)
+		ev["msg"] = &servicetypes.MsgCallService{
+			ServiceName: servicetypes.OraclePriceServiceName, Providers: []string{servicetypes.OraclePriceServiceProvider.String()},
+			Consumer: c.Accts[who].Addr.String(), Input: fmt.Sprintf(`{"header":{},"body":{"pair":"%s"}}`, feed),
+			ServiceFeeCap: sdk.NewCoins(sdk.NewInt64Coin(svcslice.Denom, 1)), Timeout: 1,
+		}
+		return ev
+	}
+	bind := func(who string) chain.M {
+		ev := oraEvent("BindService", who, "")
+		addr := c.Accts[who].Addr.String()
+		ev["msg"] = &servicetypes.MsgBindService{ServiceName: svcName, Provider: addr, Owner: addr,
+			Deposit: sdk.NewCoins(sdk.NewInt64Coin(svcslice.Denom, 20)), Pricing: `{"price":"1btc"}`, QoS: 1, Options: "{}"}
+		return ev
+	}
+	for i, who := range []string{"u2", "u1"} {
+		rs := block(call(who), bind(who))
+		age := time.Since(c.Time.Add(-time.Duration(i+1) * time.Second))
+		fmt.Printf("clock: block %d CallService ok=%v code=%d log=%q | BindService(btc price) ok=%v code=%d log=%q | value age by host clock ~%s\n",
+			c.Height, rs[0].OK, rs[0].Code, rs[0].Log, rs[1].OK, rs[1].Code, rs[1].Log, age.Round(time.Second))
+		if !rs[0].OK {
+			return fmt.Errorf("clock: live CallService failed: %s", rs[0].Log)
+		}
+	}
+	// what the module service answered in the live run
+	c.K.Service.IterateResponses(c.Ctx(), func(id tmbytes.HexBytes, r servicetypes.Response) bool {
+		fmt.Printf("clock: stored response result=%s output=%s\n", r.Result, r.Output)
+		return false
+	})
+	return nil
 }
